@@ -96,6 +96,23 @@ func iterPairs(mpt *util.MerklePatriciaTrie) ([]pair, error) {
 	return ps, err
 }
 
+// iterPairsMask is iterPairs with an arbitrary node-type mask: only the value callbacks are collected.
+func iterPairsMask(mpt *util.MerklePatriciaTrie, mask byte) ([]pair, error) {
+	var ps []pair
+	err := mpt.Iterate(context.Background(), func(ctx context.Context, path util.Path, key util.Key, node util.Node) error {
+		if node == nil {
+			return nil
+		}
+		vn, ok := node.(*util.ValueNode)
+		if !ok {
+			return nil
+		}
+		ps = append(ps, pair{string(append([]byte(nil), path...)), append([]byte(nil), vn.GetValueBytes()...)})
+		return nil
+	}, mask)
+	return ps, err
+}
+
 func fmtPairs(ps []pair) string {
 	var sb strings.Builder
 	for i, p := range ps {
